@@ -58,6 +58,10 @@ def run(ctx):
                     "LineColIterator<io::Bytes<R>> only" % tys)
 
     ioread_map(ctx, lexpr)
+    # "a read failure is ... never treated as end of input", "an error of the same category": the category and kind
+    # maps of the error type (shared with C19)
+    from . import c19
+    c19.category(ctx, lexpr, serde)
 
     # ------------------------------------------------------------ R-ERRDROP
     r3 = ctx.rule("R-ERRDROP", "no parse::Error / io::Error value is dropped or discarded on a normal path of the parser")
